@@ -109,3 +109,39 @@ package accumulated_scenario_filters
 //@   modifies *
 //@   ensures [nilScenarioNoFilter] scenario == nil ==> result == nil
 //@ end
+
+// ---- C10: the topology-aware constructor is total in its scenario argument too (helper scb) -----------------
+//@ define groupsNonNil(gs []*subgroup_info.SubGroupSet) bool = forall i int :: 0 <= i && i < len(gs) ==> gs[i] != nil
+//@ define nodesOK(m map[string]*node_info.NodeInfo) bool = forall k in m :: m[k] != nil && m[k].Node != nil
+
+//@ func getSubgroupsWithRequiredConstraints
+//@   props C10
+//@   trusted
+//@   note trusted: recursion over the sub-group tree with an accumulator slice; the body checks jobSubGroup == nil first and only reads it afterwards (nil children are skipped the same way), so nothing is required; assumed: nothing of the caller is written (append on the accumulator) and only the non-nil jobSubGroup is ever appended
+//@   ensures [assumed] groupsNonNil(out) ==> groupsNonNil(result)
+//@ end
+
+//@ func buildDomainCapacity
+//@   props C10
+//@   trusted
+//@   note trusted: sort.Slice with a closure over two maps, struct-keyed maps of slices; the preconditions are what the body dereferences (subgroup.GetTopologyConstraint(), nodeInfo.GetSumOfIdleGPUs(), nodeInfo.Node.Labels) and are checked at the call site in the constructor
+//@   requires groupsNonNil(subgroupsWithRequired)
+//@   requires nodesOK(nodeInfosMap)
+//@ end
+
+//@ func extractRequiredTopologyConstraints
+//@   props C10
+//@   requires scenario != nil ==> scenario.BaseScenario != nil
+//@   ensures [nilScenarioNothing] scenario == nil ==> len(result) == 0
+//@   ensures [groupsNonNil] groupsNonNil(result)
+//@ end
+
+//@ func NewTopologyAwareIdleGpusFilter
+//@   props C10
+//@   requires scenario != nil ==> scenario.BaseScenario != nil
+//@   requires scenario != nil ==> nodesOK(nodeInfosMap)
+//@   note the preconditions for a non-nil scenario are the type invariant of ByNodeScenario (NewByNodeScenario always sets the embedded *BaseScenario) and "the cluster's node map holds no nil NodeInfo / NodeInfo without Node"; nothing is required of a nil scenario
+//@   # frame: nothing that existed before the call is written (default `modifies` nothing; the filter and its maps are own allocations)
+//@   ensures [nilScenarioNoFilter] scenario == nil ==> result == nil
+//@   ensures [filterHasVictimSet] result != nil ==> result.processedVictims != nil
+//@ end
